@@ -354,6 +354,15 @@ func (s *Sched) Block(why string, pred func() bool) { s.yield(why, pred) }
 // Yield is a plain scheduling point (used by vsync and the fakes).
 func (s *Sched) Yield(why string) { s.yield(why, nil) }
 
+// YieldIf is a scheduling point that is live only if class is in the focus set
+// ("sync.Map", "sync.Mutex": harnesses that do not list them still get blocking
+// semantics, but no extra interleaving points at these operations).
+func (s *Sched) YieldIf(class, why string) {
+	if s.focusAll || s.focus[class] {
+		s.yield(why, nil)
+	}
+}
+
 func (s *Sched) NoteHeld(m any, where string) { s.held[m] = where }
 func (s *Sched) NoteReleased(m any)           { delete(s.held, m) }
 
